@@ -133,14 +133,14 @@ def sequences(keys, tier):
             ops.append(('set', ki, vi))
         ops.append(('del', ki, 0))
     out = [[a] for a in ops] + [[a, b] for a in ops for b in ops]
-    core = [0, 2, 3, 5, 7, 9] if tier == 'quick' else list(range(len(keys)))
+    core = [0, 2, 5, 7] if tier == 'quick' else list(range(len(keys)))
     sets = [o for o in ops if o[0] == 'set' and o[1] in core]
     for a in sets:
         for b in sets:
             if a[1] == b[1]:
                 continue
             for c in ops:
-                if tier == 'quick' and c[1] not in (a[1], b[1]) and c[0] == 'del':
+                if tier == 'quick' and c[1] not in (a[1], b[1]):
                     continue
                 out.append([a, b, c])
     return out
